@@ -186,7 +186,7 @@ def run(ctx):
             s0 = rng.randrange(b["frames"] - 1); e0 = rng.randint(s0 + 1, b["frames"])
             per = b["people"] * b["points"]
             sub = dict(b, frames=e0 - s0, data=b["data"][s0 * per * b["dims"]:e0 * per * b["dims"]], conf=b["conf"][s0 * per:e0 * per])
-            fops = [o for o in ops if o["k"] != "select_frames"]            # frame indexes of the full file do not apply to the window
+            fops = [o for o in ops if o["k"] not in ("select_frames", "slice")]            # frame indexes / slices chosen for the full file do not apply to the window (a slice may leave it empty)
             cases.append({"hex": raw.hex(), "route": "read_window", "window": [s0, e0], "ops": fops, "shape": [e0 - s0, b["people"], b["points"], b["dims"]],
                           "case": {"header": case["header"], "body": sub}, "maxabs": float(vals.max()) if vals.size else 1.0})
     results = {}
